@@ -231,7 +231,7 @@ struct C2Case {
     limit: Option<(bool, String)>,
 }
 
-fn build(g: &Grammar, thorough: bool) -> Vec<C2Case> {
+fn build(g: &Grammar, thorough: bool, deep: bool) -> Vec<C2Case> {
     let mut out: Vec<C2Case> = Vec::new();
     let carriers = corpus::carriers(g);
     let mut plain = carriers.clone();
@@ -367,7 +367,7 @@ fn build(g: &Grammar, thorough: bool) -> Vec<C2Case> {
         }
     }
     // uninterpreted IF_DATA payloads: all token sequences up to length k
-    let k = if thorough { 4 } else { 3 };
+    let k = if deep { 5 } else if thorough { 4 } else { 3 };
     let mut gen = Gen::new(g);
     let (base, path) = gen.carrier_v("MODULE", 5, 1);
     let mut seqs: Vec<Vec<usize>> = vec![vec![]];
@@ -487,7 +487,7 @@ fn same_int(a: &str, b: &str) -> bool {
 pub fn run(tier: &str) -> Run {
     let mut run = Run::new("C02", tier);
     let g = corpus::grammar();
-    let cases = build(&g, crate::util::wide(tier));
+    let cases = build(&g, crate::util::wide(tier), crate::util::deep(tier));
     let res = par_map(cases.len(), &|i| eval(&g, &cases[i]), &|i| {
         println!("MACHINERY-ERROR: C02 case hangs: {}", cases[i].case.label);
         std::process::exit(2);
